@@ -503,6 +503,14 @@ class WebSocketApp:
             ],
             reconnecting: bool = False,
         ) -> bool:
+            if not self.keep_running and not isinstance(
+                e, (KeyboardInterrupt, SystemExit)
+            ):
+                # close() was called by the application (possibly from another
+                # thread) while this thread was still using the socket: whatever
+                # that made fail is not an error of the run, which simply ends
+                teardown()
+                return
             self.has_errored = True
             self._stop_ping_thread()
             if not reconnecting:
